@@ -34,6 +34,20 @@ def finishRel (st : Strand) : RelOut → R Location
       let opt ← optimizeLoc true c
       if ns ≠ st then resetStrand opt ns else pure opt
 
+/-- (start, end) lists as model blocks -/
+def zipBlk (starts ends : List Int) : List Blk := (List.zip starts ends).map (fun p => (p.1.toNat, p.2.toNat))
+
+/-- What `optimize_blocks` / `optimize_and_combine_blocks` do with the result of `_combine_blocks`, as the model has
+    it (`Model.optimizeLoc`): `self` or the rebuilt `CompoundInterval(new_starts, new_ends, self.strand, …)` — the
+    constructor call the translator does not compile — goes through `_to_single_interval_if_one_block`, an
+    EmptyLocation is returned as it is. -/
+def finishOpt (l : Loc) : CombineOut → R Location
+  | .same => pure (toSingleIfOne l)
+  | .empty => pure .empty
+  | .rebuilt starts ends => do
+      let l' ← mkCompoundLoc (zipBlk starts ends) l.strand
+      pure (toSingleIfOne l')
+
 /-- Python exception class of a generated kernel ↦ the model's documented class (`none`: no documented counterpart) -/
 def excErr : PyExc → Option Err
   | .InvalidPositionException => some .InvalidPosition
@@ -72,5 +86,36 @@ def grelint : Location → Int → Int → Strand → Sum PyExc (R Location)
       | .ok o => .inr (finishRel l.strand o)
       | .error e => .inl e
   | .empty, _, _, _ => .inl .EmptyLocationException
+
+/-- `optimize_blocks` (`preserve = true`) / `optimize_and_combine_blocks` (`preserve = false`) of a CompoundInterval
+    through the GENERATED `_combine_blocks` loop, continued by `finishOpt` -/
+def goptimize (preserve : Bool) : Location → Sum PyExc (R Location)
+  | .compound l =>
+      match (if preserve then Gen.CompoundInterval_optimize_blocks (toCI l)
+             else Gen.CompoundInterval_optimize_and_combine_blocks (toCI l)) with
+      | .ok o => .inr (finishOpt l o)
+      | .error e => .inl e
+  | x => .inr (if preserve then optimizeBlocks x else optimizeAndCombine x)
+
+/-- `gap_list()` of a CompoundInterval: the head of the method as the model has it (`optimizeLoc false`, the empty
+    test, `scanBlocks`), then the GENERATED pairwise loop on the scanned blocks -/
+def ggaplist : Location → Sum PyExc (R (List SI))
+  | .compound l =>
+      match optimizeLoc false l with
+      | .error e => .inr (.error e)
+      | .ok .empty => .inr (pure [])
+      | .ok (.single b st) =>
+          match Gen.CompoundInterval_gap_list (toCI l) (toSI b st, []) with
+          | .ok gs => .inr (pure gs)
+          | .error e => .inl e
+      | .ok (.compound lo) =>
+          match scanBlocks lo with
+          | .error e => .inr (.error e)
+          | .ok [] => .inr (pure [])
+          | .ok (b :: rest) =>
+              match Gen.CompoundInterval_gap_list (toCI l) (toSI b lo.strand, rest.map (fun x => toSI x lo.strand)) with
+              | .ok gs => .inr (pure gs)
+              | .error e => .inl e
+  | _ => .inr (pure [])
 
 end BioCantor.Model.LoopGlue
